@@ -190,7 +190,8 @@ theorem kernel_meets_spec_defs_partial (hlaw : LawfulExtra x) (rule : QRule) (hr
     (hdef : ∀ d ∈ ds, IsDef x σ rule.nweights d.stmt d.name d.val)
     (hdis : PrefixDisjoint ds fw i0) (hssa : ssaOk i0 = true)
     (hreads : PrefixReads ds fw i0 ((allFw st gs).filter (fun e => !isSymB e)))
-    (hsafe : ∀ q : Nat, q < rule.nweights → ∀ υ : St R, AfterDefs σ ds fw q υ →
+    (hsafe : ∀ q : Nat, q < rule.nweights → ∀ τ υ : St R, SigmaLike σ ds fw i0 τ → AfterDefs σ ds fw q υ →
+      (∀ n, n ∉ ds.map (·.name) → n ∉ declNames fw → υ.sv.get n = τ.sv.get n) →
       SafeFrom υ (declNames i0) i0)
     (hsafeFw : ∀ q : Nat, q < rule.nweights → ∀ τ τ₁ : St R, SigmaLike σ ds fw i0 τ →
       PrefixPost x σ ds fw i0 q τ τ₁ →
@@ -207,8 +208,8 @@ theorem kernel_meets_spec_defs_partial (hlaw : LawfulExtra x) (rule : QRule) (hr
   have hσlike : SigmaLike σ ds fw i0 σ := ⟨Agree.refl σ, fun _ _ => rfl, fun _ _ _ _ => rfl⟩
   have hrun : ∀ q : Nat, q < rule.nweights → ∃ S, PrefixPost x σ ds fw i0 q σ S := by
     intro q hq
-    obtain ⟨S, _, hS⟩ := prefix_run x σ rule.nweights ds fw i0 hdef hdis hfwshape hssa hsafe q hq σ
-      (Agree.refl σ)
+    obtain ⟨S, _, hS⟩ := prefix_run x σ rule.nweights ds fw i0 hdef hdis hfwshape hssa q hq σ
+      (Agree.refl σ) (fun υ h1 h2 => hsafe q hq σ υ hσlike h1 h2)
     exact ⟨S, hS⟩
   let S : Nat → St R := fun q => if h : q < rule.nweights then Classical.choose (hrun q h) else σ
   have hS : ∀ q, q < rule.nweights → PrefixPost x σ ds fw i0 q σ (S q) := by
@@ -255,8 +256,8 @@ theorem kernel_meets_spec_defs_partial (hlaw : LawfulExtra x) (rule : QRule) (hr
           · exact h1 h
           · exact h2 h
           · exact h3 h)⟩
-    obtain ⟨τ₁, he1, hp⟩ := prefix_run x σ rule.nweights ds fw i0 hdef hdis hfwshape hssa hsafe q hq τ
-      hτlike.arr
+    obtain ⟨τ₁, he1, hp⟩ := prefix_run x σ rule.nweights ds fw i0 hdef hdis hfwshape hssa q hq τ
+      hτlike.arr (fun υ h1 h2 => hsafe q hq τ υ hτlike h1 h2)
     obtain ⟨sf1, sf2⟩ := hsafeFw q hq τ τ₁ hτlike hp
     refine ⟨τ₁, he1, ?_, hp.after.iq, ?_, ?_⟩
     · obtain ⟨_, a, _, ha, _⟩ := hτ.arr
